@@ -395,6 +395,7 @@ func TestC39(t *testing.T) {
 	proofsSeen := 0
 	chainCalls := map[string]int{}
 	rejectReasons := map[string]int{}
+	knownCulprits, fullScans := map[string]bool{}, 0
 
 	for wi := 0; wi < nWorlds && run.Violations() < 5; wi++ {
 		w, err := newWorld(run.Seed, wi)
@@ -434,6 +435,7 @@ func TestC39(t *testing.T) {
 			// ---------------- burst of single-field corruptions of this very request
 			order := rng.Perm(len(ks))
 			var rejectedKinds []string
+			var rejectedReqs []*pairingtypes.RelayRequest
 			bursts++
 			for _, ki := range order {
 				k := ks[ki]
@@ -501,6 +503,7 @@ func TestC39(t *testing.T) {
 					break
 				}
 				rejectedKinds = append(rejectedKinds, k.name)
+				rejectedReqs = append(rejectedReqs, cr)
 			}
 			if dirty {
 				break
@@ -517,12 +520,31 @@ func TestC39(t *testing.T) {
 			}
 			if !res.Served {
 				// is the burst the reason? replay only the accepted valid requests, then this one, in a fresh identical world
-				ctrl := controlAccepts(run.Seed, wi, w, b.Req)
+				ctrl := controlAccepts(run.Seed, wi, w, nil, b.Req)
 				if ctrl == "accepted" {
-					run.Violation("valid-relay-rejected-after-rejections", "after-burst:"+strings.Join(uniqueSorted(rejectedKinds), ","),
-						fmt.Sprintf("after a burst of %d rejected corruptions the consumer's next valid relay was rejected (%s), although a fresh identical provider that never saw the burst accepts it; state before the valid relay %s",
-							len(rejectedKinds), res.Err, beforeBase),
-						witness(map[string]any{"valid_base_request": reqJSON(b.Req)}))
+					// which single rejected request is enough to make the valid relay fail?
+					culprit := ""
+					try := func(want func(kn string) bool) {
+						for i, cr := range rejectedReqs {
+							if culprit == "" && want(rejectedKinds[i]) && controlAccepts(run.Seed, wi, w, cr, b.Req) != "accepted" {
+								culprit = rejectedKinds[i]
+							}
+						}
+					}
+					try(func(kn string) bool { return knownCulprits[kn] }) // kinds that already explained an earlier failure first
+					if culprit == "" && fullScans < 3 {
+						fullScans++
+						try(func(kn string) bool { return !knownCulprits[kn] })
+					}
+					if culprit == "" {
+						culprit = "only-in-combination-or-not-searched"
+					} else {
+						knownCulprits[culprit] = true
+					}
+					run.Violation("valid-relay-rejected-after-rejections", culprit,
+						fmt.Sprintf("after a burst of %d rejected corruptions the consumer's next valid relay was rejected (%s), although a fresh identical provider that never saw the burst accepts it; a single rejected request of kind %q before it is enough; visible session/CU state before the valid relay %s",
+							len(rejectedKinds), res.Err, culprit, beforeBase),
+						witness(map[string]any{"valid_base_request": reqJSON(b.Req), "culprit_kind": culprit, "burst": uniqueSorted(rejectedKinds)}))
 				} else {
 					run.Require(fmt.Sprintf("base request world %d base %d (%s) is valid in a world without corruptions: control says %s; provider error: %s", wi, bi, b.api, ctrl, res.Err), false)
 				}
@@ -646,9 +668,9 @@ func uniqueSorted(xs []string) []string {
 }
 
 // controlAccepts rebuilds world (seed, idx) from scratch, replays only the valid requests accepted so
-// far (and the epoch updates at the same positions) and then sends req: "accepted" means the request
-// is valid on its own and only the burst can explain its rejection.
-func controlAccepts(seed int64, idx int, orig *world, req *pairingtypes.RelayRequest) string {
+// far (and the epoch updates at the same positions), optionally one of the rejected requests, and then
+// sends req: "accepted" means the request is valid on its own and only the burst can explain its rejection.
+func controlAccepts(seed int64, idx int, orig *world, rejectedFirst, req *pairingtypes.RelayRequest) string {
 	c, err := newWorld(seed, idx)
 	if err != nil {
 		return "control world failed: " + err.Error()
@@ -666,7 +688,10 @@ func controlAccepts(seed int64, idx int, orig *world, req *pairingtypes.RelayReq
 	if to, ok := orig.epochOps[len(orig.accepted)]; ok {
 		c.advanceEpoch(to)
 	}
-	if res := c.relay(cloneReq(req)); !res.Served {
+	if rejectedFirst != nil {
+		c.relay(rejectedFirst)
+	}
+	if res := c.relay(req); !res.Served {
 		return "rejected: " + res.Err
 	}
 	return "accepted"
